@@ -862,6 +862,19 @@ def applyBsc (s : Store) : BscOp → Store
 def nonEmptyValsB (s : Store) : Bool := s.all (fun kv => kv.1 == kChainName || !kv.2.isEmpty)
 def NonEmptyVals (s : Store) : Prop := nonEmptyValsB s = true
 
+/-! ## the module-level entry points: `AppModule.InitGenesis(ctx, cdc, json)` -/
+
+/-- `AppModule.InitGenesis` of xibc, aggregate and rvesting (module.go): `cdc.MustUnmarshalJSON(json, &gs)` and then the keeper-level
+InitGenesis on exactly the decoded state — no defaulting, no "zero value means absent" in between -/
+def moduleInit {G S : Type} (decode : Bytes → Option G) (init : G → S) (json : Bytes) : Outcome S :=
+  match decode json with
+  | some g => .ok (init g)
+  | none => .panic "unmarshal"
+
+/-- the seeded variant of aggregate's `AppModule.InitGenesis`: a decoded `Params` equal to the zero value is replaced by the defaults -/
+def initAggregateDefaulting (env : Env) (zero dflt : List (Bytes × Bytes)) (g : AggGenesis) : AggState :=
+  if g.params = zero then initAggregate env { g with params := dflt } else initAggregate env g
+
 /-- the xibc store right after `InitGenesis` of a fresh chain: only the native chain name -/
 def freshStore (n : Bytes) : Store := setChainName [] n
 
